@@ -108,6 +108,14 @@ def gen_cases(tier, seed):
     cases[2].pop("target", None)
     cases[3].update({"route": "slices", "target": 1, "max_scales": None,
                      "shape": [12, 5, 3]})
+    # directed: raw chunks stored uncompressed whose first bytes look like a gzip header
+    # (the volume generator plants 1f 8b at chunk corners when vseed % 3 == 0)
+    for k in (7, 8):
+        cases[k].update({"route": "pair", "seg": False, "cseg": False,
+                         "dtype": ("uint8", "uint16")[k - 7], "nogzip": True, "scal": None,
+                         "input_max": None, "method": "stride", "voxel": [1, 1, 1],
+                         "shape": [150, 30, 20], "vseed": cases[k]["vseed"] // 3 * 3})
+        cases[k].pop("target", None)
     # directed: a segmentation declared with --type and the DEFAULT downscaling method (which
     # must then be the striding one in both routes)
     cases[6].update({"route": "pair", "seg": True, "type_opt": True, "cseg": False,
@@ -259,6 +267,7 @@ def run_case(case):
                         vol[x0, 0, 0] = np.array(0x8b1f, dtype="uint16").view(
                             dt if dt.itemsize == 2 else "uint16")
             obs["volumes_with_gzip_magic_at_chunk_corners"] = 1
+            obs["gzip_magic_volumes_stored_uncompressed"] = int(bool(case["nogzip"]))
         aff = np.diag(case["voxel"] + [1.0])
         fn = os.path.join(top, "v.nii" + (".gz" if case["vseed"] % 2 else ""))
         img = nibabel.Nifti1Image(vol, aff, dtype=vol.dtype) if dt.itemsize == 8 \
@@ -592,4 +601,6 @@ def gates(obs, tier):
         "one_voxel_chunk_pyramid_attempted": obs.get("target_chunk_sizes", {}).get("1", 0) > 0,
         "strongly_anisotropic_voxels": obs.get("strongly_anisotropic_voxels", 0) >= 3,
         "sharded_to_sharded_copies": obs.get("sharded_to_sharded_copies", 0) >= 3,
+        "gzip_magic_volumes_stored_uncompressed": obs.get(
+            "gzip_magic_volumes_stored_uncompressed", 0) >= 2,
     }
